@@ -1,4 +1,4 @@
-(* C13 — correspondence.  case = ((cap ops [nocb [valkind]]) (obs ...)), obs = (out log len_after);
+(* C13 — correspondence.  case = ((cap ops [nocb [valkind [cbmode]]]) (obs ...)), obs = (out log len_after [viewbad]);
    nocb = 1: the cache was built without a callback (nothing may be logged, all else equal).
    The model (recency list) is compared with the implementation (VMismatch), and the
    reference LRU of Spec.v — the property's executable form — is evaluated against the
@@ -17,6 +17,7 @@ Definition dec_op (s : sx) : option op :=
   | SList [SInt 4] => Some GetOldest
   | SList [SInt 5] => Some Keys
   | SList [SInt 6; SInt k] => Some (Remove k)
+  | SList [SInt 6; SInt k; SInt _] => Some (Remove k)   (* performed from inside the callback of the op before it: takes effect right after it *)
   | SList [SInt 7] => Some RemoveOldest
   | SList [SInt 8; SInt n] => Some (Resize n)
   | SList [SInt 9] => Some Purge
@@ -41,13 +42,21 @@ Definition dec_out (s : sx) : option out :=
 Definition dec_kv (s : sx) : option (Z * Z) :=
   match s with SList [SInt k; SInt v] => Some (k, v) | _ => None end.
 
-Definition dec_obs (s : sx) : option (out * list (Z * Z) * Z) :=
+(* an observation: return value ([None]: the call panicked), callback arguments, Len() afterwards,
+   and (callback mode 1) whether the callback saw its own entry still present / a wrong Len *)
+Definition dec_obs (s : sx) : option (option out * list (Z * Z) * Z * Z) :=
+  let mk o lg n vb :=
+    match map_opt dec_kv lg with
+    | Some lg' =>
+        match o with
+        | SList (SInt 99 :: _) => Some (None, lg', n, vb)
+        | _ => match dec_out o with Some o' => Some (Some o', lg', n, vb) | None => None end
+        end
+    | None => None
+    end in
   match s with
-  | SList [o; SList lg; SInt n] =>
-      match dec_out o, map_opt dec_kv lg with
-      | Some o', Some lg' => Some (o', lg', n)
-      | _, _ => None
-      end
+  | SList [o; SList lg; SInt n] => mk o lg n 0
+  | SList [o; SList lg; SInt n; SInt vb] => mk o lg n vb
   | _ => None
   end.
 
@@ -90,41 +99,57 @@ Definition opcode (o : op) : N :=
   end%N.
 
 (* codes: 100+opcode = return value, 200+opcode = callback arguments, 300 = length,
-   400 = capacity bound *)
-Fixpoint walk (nocb : bool) (c : cache) (s : spec) (ops : list op) (obs : list (out * list (Z * Z) * Z)) : verdict :=
+   400 = capacity bound, 500 = the callback ran while its entry was still in the cache (or Len
+   was not what it is once the entry has left), 600 = a call panicked although no callback of
+   this history panics in it.
+   cbmode 3: the callback panics after recording its arguments; the caller recovers.  The call's
+   return value is then lost (not compared), everything else must be as if the callback had
+   returned. *)
+Fixpoint walk (nocb : bool) (cbmode : Z) (c : cache) (s : spec) (ops : list op)
+         (obs : list (option out * list (Z * Z) * Z * Z)) : verdict :=
   match ops, obs with
   | [], [] => VOk
-  | o :: ops', (io, ilog, ilen) :: obs' =>
+  | o :: ops', (io, ilog, ilen, vbad) :: obs' =>
       let '(c1, mo, mlog0) := step c o in
       let '(s1, so, slog0) := sstep s o in
       let mlog := if nocb then [] else mlog0 in
       let slog := if nocb then [] else slog0 in
       let code := opcode o in
+      let may_panic := (cbmode =? 3) && negb (match slog with [] => true | _ => false end) in
       let v :=
-        vjoin (check_that (out_eqb so io) (VPropFail (100 + code)))
+        vjoin (match io with
+               | Some io' => check_that (out_eqb so io') (VPropFail (100 + code))
+               | None => check_that may_panic (VPropFail 600)
+               end)
        (vjoin (check_that (log_eqb o slog ilog) (VPropFail (200 + code)))
        (vjoin (check_that (ilen =? Z.of_nat (length (stab s1))) (VPropFail 300))
        (vjoin (check_that (ilen <=? Z.max 0 (scap s1)) (VPropFail 400))
-       (vjoin (check_that (out_eqb mo io) (VMismatch (100 + code)))
+       (vjoin (check_that (vbad =? 0) (VPropFail 500))
+       (vjoin (match io with
+               | Some io' => check_that (out_eqb mo io') (VMismatch (100 + code))
+               | None => VOk
+               end)
        (vjoin (check_that (log_eqb o mlog ilog) (VMismatch (200 + code)))
-              (check_that (ilen =? len c1) (VMismatch 300))))))) in
+              (check_that (ilen =? len c1) (VMismatch 300)))))))) in
       match v with
-      | VOk => walk nocb c1 s1 ops' obs'
+      | VOk => walk nocb cbmode c1 s1 ops' obs'
       | _ => v
       end
   | _, _ => VBad
   end.
 
-Definition check_with (nocb : bool) (cap0 : Z) (ops obs : list sx) : verdict :=
+Definition check_with (nocb : bool) (cbmode cap0 : Z) (ops obs : list sx) : verdict :=
   match map_opt dec_op ops, map_opt dec_obs obs with
-  | Some ops', Some obs' => walk nocb (new_cache cap0) (new_spec cap0) ops' obs'
+  | Some ops', Some obs' => walk nocb cbmode (new_cache cap0) (new_spec cap0) ops' obs'
   | _, _ => VBad
   end.
 
 Definition check (c : sx) : verdict :=
   match c with
-  | SList [SList [SInt cap0; SList ops]; SList obs] => check_with false cap0 ops obs
+  | SList [SList [SInt cap0; SList ops]; SList obs] => check_with false 0 cap0 ops obs
   | SList [SList [SInt cap0; SList ops; SInt nocb]; SList obs]
-  | SList [SList [SInt cap0; SList ops; SInt nocb; SInt _]; SList obs] => check_with (negb (nocb =? 0)) cap0 ops obs
+  | SList [SList [SInt cap0; SList ops; SInt nocb; SInt _]; SList obs] => check_with (negb (nocb =? 0)) 0 cap0 ops obs
+  | SList [SList [SInt cap0; SList ops; SInt nocb; SInt _; SInt cbmode]; SList obs] =>
+      check_with (negb (nocb =? 0)) cbmode cap0 ops obs
   | _ => VBad
   end.
